@@ -212,6 +212,49 @@ func c05Gen(c *Ctx) {
 		tc := trieCase{ops: opsOf(ps), text: []byte(text)}
 		c05Try(t, "wide", &tc)
 	})
+	// dense tries (frontier above 20 nodes, second wrapped growth of the queue) and targeted rebuilds
+	c.Each(c.N(30000, 300000), func(i int, t *T) {
+		r := t.R
+		if i%4 != 3 {
+			ps, letters := densePatternSet(r)
+			famd := "dense"
+			if i%2 == 0 {
+				ps, letters = manyPatternSet(r)
+				famd = "many-irregular"
+			}
+			var text string
+			if r.Intn(2) == 0 {
+				text = randWord(r, letters, 3, 12)
+			} else { // pieces of patterns glued together: walks deep into the trie
+				for len(text) < 8 {
+					q := ps[r.Intn(len(ps))]
+					text += q[:1+r.Intn(len(q))]
+				}
+			}
+			tc := trieCase{ops: opsOf(ps), text: []byte(text)}
+			
+			c05Try(t, famd, &tc)
+			return
+		}
+		units := trieASCII
+		if r.Intn(3) == 0 {
+			units = trieUnits
+		}
+		first, second := rebuildBatches(r, units)
+		var ops []trieOp
+		for _, p := range first {
+			ops = append(ops, trieOp{pat: []byte(p)})
+		}
+		ops = append(ops, trieOp{build: true})
+		for _, p := range second {
+			ops = append(ops, trieOp{pat: []byte(p)})
+		}
+		ops = append(ops, trieOp{build: true})
+		all := append(append([]string{}, first...), second...)
+		tc := trieCase{ops: ops, text: []byte(randText(r, units, all, 10))}
+		
+		c05Try(t, "rebuild-suffix-extension", &tc)
+	})
 	// 6. not canonical: no build at all, or inserts after the last build (nil fail links: panics are compared with the model)
 	c.Each(c.N(1200, 20000), func(i int, t *T) {
 		r := t.R
